@@ -97,6 +97,34 @@ def lazy_vs_eager(chk: core.Check, thorough: bool):
                                       {"announced": announced[:300], "computed_type": t_comp[:300], "n": len(comp)}, {"eager_type": t_eager[:300], "n": len(eager)},
                                       "lazy (uproot.dask + compute) has the same type and values as eager array(); the announced type equals the computed type")
                     return
+        # other ways of asking for the same lazy array: several files at once (the computed array is the concatenation of the eager reads),
+        # open_files=False (forms come from the first file only), step_size instead of steps_per_file
+        if fn in ("test_full_mc_evt_1.rtraw", "test_full_mc_evt_1.dst"):
+            other = core.REPO / "tests" / "data" / fn.replace("_1.", "_2.")
+            pick = [n for n in names if "mdcDigiCol" in n or "mdcTrackCol" in n or "mcParticleCol" in n][:2]
+            for name in pick:
+                short = name.split("/")[-1]
+                with uproot.open(p) as f:
+                    e1 = f["Event"][name].array()
+                variants = {"step_size=4": lambda: uproot.dask({str(p): "Event/" + name}, step_size=4)[short],
+                            "open_files=False": lambda: uproot.dask({str(p): "Event/" + name}, open_files=False)[short]}
+                want = {"step_size=4": e1, "open_files=False": e1}
+                if other.exists():
+                    with uproot.open(other) as f:
+                        e2 = f["Event"][name].array()
+                    variants["two files"] = lambda: uproot.dask([{str(p): "Event/" + name}, {str(other): "Event/" + name}], steps_per_file=2)[short]
+                    want["two files"] = ak.concatenate([e1, e2])
+                for vname, build in variants.items():
+                    chk.count(1, key=f"variant-{fn}-{name}-{vname}")
+                    try:
+                        comp = build().compute()
+                        bad = None if (str(comp.type) == str(want[vname].type) and canon(ak.to_list(comp)) == canon(ak.to_list(want[vname]))) else f"type {str(comp.type)[:200]}, {len(comp)} entries"
+                    except Exception as ex:
+                        bad = f"{type(ex).__name__}: {str(ex)[:200]}"
+                    if bad:
+                        chk.failing_input(f"uproot.dask(..., {vname}) then compute()", {"file": fn, "branch": name, "variant": vname}, bad, {"eager_type": str(want[vname].type)[:200], "n": len(want[vname])},
+                                          "the array obtained lazily and then computed has the same type and values as the eager one")
+                        return
         # column projection on a multi-branch lazy array: every branch of the group is in turn the only one computed (all others
         # are projected away), plus one member column of a collection
         with uproot.open(p) as f:
